@@ -2668,6 +2668,11 @@ func getVarDependencies(nod *node, sc *scope) (deps []*node) {
 					walk(m.child[3], true)
 				}
 			}
+			if n.kind == funcLit && !inFunc {
+				// The identifiers of a function literal have been resolved by cfg, as in a function body.
+				walk(n, true)
+				return false
+			}
 			if n.kind != identExpr {
 				return true
 			}
